@@ -43,6 +43,19 @@ Definition data_state (st : tcp_state) : bool :=
 Definition fin_state (st : tcp_state) : bool :=
   match st with FinWait1 | Closing | LastAck => true | _ => false end.
 
+Lemma rb_get_allocated_pos : forall r offset size,
+  rb_wf r -> 0 <= offset < rb_len r -> 1 <= size ->
+  1 <= l_len (rb_get_allocated r offset size).
+Proof.
+  intros r offset size Hwf Ho Hs. pose proof Hwf as (Hl & Hst & Hr & Hcap).
+  unfold rb_get_allocated.
+  destruct (Z.gtb_spec offset (rb_len r)); [lia|].
+  assert (Hcp : 0 < rb_cap r) by lia.
+  assert (Hi : 0 <= rb_get_idx r offset < rb_cap r).
+  { unfold rb_get_idx. destruct (Z.gtb_spec (rb_cap r) 0); [|lia]. apply Z.mod_pos_bound. lia. }
+  rewrite l_len_slice by lia. lia.
+Qed.
+
 Lemma build_data_spec : forall cx g s repr s2 r zwp tg,
   inv g s -> ctx_ok cx -> base_repr repr ->
   data_state (s_state s) = true -> g_phase g = PData ->
@@ -61,7 +74,9 @@ Lemma build_data_spec : forall cx g s repr s2 r zwp tg,
     (c = CNone \/ c = CPsh \/ c = CFin) /\
     (c = CFin <-> (off + n = len /\ fin_state (s_state s) = true)) /\
     (c = CPsh -> 0 < n) /\
-    (s2 = s \/ s2 = upd_pending_fast_retransmit s false).
+    (s2 = s \/ s2 = upd_pending_fast_retransmit s false) /\
+    (n = 0 -> len <= off \/ eff <= 0 \/ s_remote_win_len s <= off \/
+              cc_window (s_congestion_controller s) <= g_flight g).
 Proof.
   intros cx g s repr s2 r zwp tg (Htx & Htm) Hcx Hbase Hds Hph Hseq H. cbv zeta.
   pose proof Htx as (Hwf & Hcap & Ha & Hlen & Hc & Hl & Hr & Hf & Hhw & Hpo & Hw & Hs).
@@ -125,7 +140,10 @@ Proof.
     split; [rewrite Hl, <- Epl, Z.add_0_r; reflexivity|].
     split; [auto|]. split; [lia|]. split; [lia|]. split; [lia|]. split; [lia|].
     split; [intros _; right; lia|]. split; [discriminate|].
-    split; [exact Hc1|]. split; [exact Hc2|]. split; [exact Hc3|]. auto.
+    split; [exact Hc1|]. split; [exact Hc2|]. split; [exact Hc3|]. split; [auto|].
+    intros Hz. destruct (Z.leb_spec size 0); [lia|].
+    destruct (Z.leb_spec (rb_len (s_tx_buffer s)) 0); [lia|].
+    pose proof (rb_get_allocated_pos (s_tx_buffer s) 0 size Hwf ltac:(lia) ltac:(lia)). fold pl in H2. lia.
   - (* normal transmission or zero-window probe: from SND.NXT *)
     rewrite Hl, Hr in H. rewrite seq_add_sq in H.
     replace (g_iss g + g_una g + s_remote_win_len s) with (g_iss g + (g_una g + s_remote_win_len s)) in H by lia.
@@ -176,6 +194,7 @@ Proof.
     cbn [obind] in H. rewrite (flight_size_ok _ _ Htx) in H.
     set (zw := (wl =? 0) && timer_should_zero_window_probe (s_timer s) (cx_now cx)) in *.
     assert (Hsize : exists size, size <= eff /\ (zw = true -> size <= 1) /\ (zw = false -> size <= wl) /\
+      (size <= 0 -> eff <= 0 \/ wl <= 0 \/ cc_window (s_congestion_controller s) <= g_flight g) /\
       (do r1 <- (do size0 <- Ok size;
                 do offset <- Ok (g_flight g);
                 Ok (s, repr_set_payload repr (rb_get_allocated (s_tx_buffer s) offset size0), offset, zw,
@@ -192,24 +211,29 @@ Proof.
                end
               else repr), zwp, tg)) = Ok (s2, Some r, zwp, tg)).
     { destruct zw eqn:Ezw.
-      - exists (Z.min 1 eff). split; [lia|]. split; [lia|]. split; [discriminate|exact H].
+      - exists (Z.min 1 eff). split; [lia|]. split; [lia|]. split; [discriminate|]. split; [lia|exact H].
       - unfold tcp_cwnd_remaining in H. rewrite (flight_size_ok _ _ Htx) in H. cbn [obind] in H.
-        eexists. split; [|split; [discriminate|split; [|exact H]]]; unfold sat_sub; lia. }
-    clear H. destruct Hsize as (size & Hsz1 & Hsz2 & Hsz3 & H). cbn [obind] in H.
+        eexists. split; [|split; [discriminate|split; [|split; [|exact H]]]]; unfold sat_sub; lia. }
+    clear H. destruct Hsize as (size & Hsz1 & Hsz2 & Hsz3 & Hsz4 & H). cbn [obind] in H.
     (* the payload read at offset flight *)
     assert (Hpl : exists n, rb_get_allocated (s_tx_buffer s) (g_flight g) size =
                             l_slice (g_acked g + g_flight g) n (g_stream g) /\
                   l_len (rb_get_allocated (s_tx_buffer s) (g_flight g) size) = n /\
                   0 <= n /\ n <= Z.max 0 size /\
                   (g_flight g <= rb_len (s_tx_buffer s) -> g_flight g + n <= rb_len (s_tx_buffer s)) /\
-                  (rb_len (s_tx_buffer s) < g_flight g -> n = 0)).
+                  (rb_len (s_tx_buffer s) < g_flight g -> n = 0) /\
+                  (n = 0 -> rb_len (s_tx_buffer s) <= g_flight g \/ size <= 0)).
     { destruct (Z.leb_spec (g_flight g) (rb_len (s_tx_buffer s))).
       - destruct (get_allocated_stream _ _ _ _ _ _ _ _ (g_flight g) size Htx ltac:(lia))
           as (Epl & P0 & P1 & P2).
-        eexists. split; [exact Epl|]. split; [reflexivity|]. lia.
+        eexists. split; [exact Epl|]. split; [reflexivity|]. split; [lia|]. split; [lia|].
+        split; [lia|]. split; [lia|]. intros Hz.
+        destruct (Z.leb_spec (rb_len (s_tx_buffer s)) (g_flight g)); [auto|].
+        destruct (Z.leb_spec size 0); [auto|].
+        pose proof (rb_get_allocated_pos (s_tx_buffer s) (g_flight g) size Hwf ltac:(lia) ltac:(lia)). lia.
       - rewrite rb_get_allocated_beyond by lia. exists 0.
         split; [rewrite l_slice_nonpos by lia; reflexivity|]. split; [reflexivity|]. lia. }
-    destruct Hpl as (n & Epl & Enl & Hn0 & Hn1 & Hn2 & Hn3).
+    destruct Hpl as (n & Epl & Enl & Hn0 & Hn1 & Hn2 & Hn3 & Hn4).
     set (pl := rb_get_allocated (s_tx_buffer s) (g_flight g) size) in *.
     destruct (Hctl s (repr_set_payload repr pl) (g_flight g) eq_refl eq_refl Hbc)
       as (c & Ec & Hc1 & Hc2 & Hc3).
@@ -225,7 +249,9 @@ Proof.
     { intros Ez. specialize (Hsz2 Ez). unfold zw in Ez. apply andb_prop in Ez.
       destruct Ez as (Ez1 & Ez2). apply Z.eqb_eq in Ez1.
       split; [lia|]. split; [reflexivity|]. split; [auto|exact Ez2]. }
-    split; [exact Hc1|]. split; [exact Hc2|]. split; [exact Hc3|]. auto.
+    split; [exact Hc1|]. split; [exact Hc2|]. split; [exact Hc3|]. split; [auto|].
+    intros Hz. destruct (Hn4 Hz) as [X|X]; [auto|]. destruct (Hsz4 X) as [Y|[Y|Y]]; [auto| |auto].
+    right; right; left. apply Hwl1. lia.
 Qed.
 
 (* ------------------------------------------------------------------------------------------ *)
@@ -350,13 +376,24 @@ Definition seg_ok (cx : ctx) (g : ghost) (s : socket) (r : tcp_repr) (zwp ka : b
         r_window_len r = tcp_scaled_window s /\ r_window_scale r = None /\
         r_max_seg_size r = None)).
 
+(* what is known when the segment built is a keep-alive: nothing else could be sent *)
+Definition ka_ok (cx : ctx) (g : ghost) (s : socket) : Prop :=
+  let len := rb_len (s_tx_buffer s) in
+  g_phase g = PFinAcked \/
+  (g_phase g = PData /\ data_state (s_state s) = true /\
+   exists off, (off = 0 \/ off = g_flight g) /\
+     ~ (off = len /\ fin_state (s_state s) = true) /\
+     (len <= off \/ eff_mss (cx_ip_mtu cx) (s_remote_mss s) (ts_opt s) <= 0 \/
+      s_remote_win_len s <= off \/ cc_window (s_congestion_controller s) <= g_flight g)).
+
 Lemma base_repr_mk : forall a b c d e f, base_repr (mkRepr a b CNone c d e None None false no_sack f []).
 Proof. intros. unfold base_repr. cbn. repeat split; reflexivity. Qed.
 
 Lemma build_spec : forall cx g s t s2 r zwp ka tg,
   inv g s -> ctx_ok cx ->
   tcp_dispatch_build cx s t = Ok (s2, Some r, zwp, ka, tg) ->
-  (s2 = s \/ s2 = upd_pending_fast_retransmit s false) /\ seg_ok cx g s r zwp ka.
+  (s2 = s \/ s2 = upd_pending_fast_retransmit s false) /\ seg_ok cx g s r zwp ka /\
+  (ka = true -> ka_ok cx g s).
 Proof.
   intros cx g s t s2 r zwp ka tg Hinv Hcx H. rewrite build_unfold in H. cbv zeta in H.
   set (ts := if s_tsval_generator s then Some (cx_tsval cx, s_last_remote_tsval s) else None) in *.
@@ -370,11 +407,12 @@ Proof.
   assert (Hdata : forall s2' r1 zwp1 tg1, data_state (s_state s) = true -> g_phase g = PData ->
             tcp_dispatch_build_data cx s repr = Ok (s2', Some r1, zwp1, tg1) ->
             post_build cx s2' r1 zwp1 tg1 = Ok (s2, Some r, zwp, ka, tg) ->
-            (s2 = s \/ s2 = upd_pending_fast_retransmit s false) /\ seg_ok cx g s r zwp ka).
+            (s2 = s \/ s2 = upd_pending_fast_retransmit s false) /\ seg_ok cx g s r zwp ka /\
+            (ka = true -> ka_ok cx g s)).
   { intros s2' r1 zwp1 tg1 Hds Hph Hb Hp.
     destruct (build_data_spec cx g s repr s2' r1 zwp1 tg1 Hinv Hcx Hbase Hds Hph eq_refl Hb)
-      as (off & n & c & Er & Hoff & Hn0 & Hn1 & Hn2 & Hn3 & Hz0 & Hz1 & Hc1 & Hc2 & Hc3 & Hs2).
-    rewrite Hopt in Hn1.
+      as (off & n & c & Er & Hoff & Hn0 & Hn1 & Hn2 & Hn3 & Hz0 & Hz1 & Hc1 & Hc2 & Hc3 & Hs2 & Hn4).
+    rewrite Hopt in Hn1, Hn4.
     assert (Hsl : l_len (l_slice (g_acked g + off) n (g_stream g)) = n).
     { pose proof Hwf as (Hl0 & _). destruct (Z.leb_spec off (rb_len (s_tx_buffer s))).
       - apply l_len_slice; lia.
@@ -394,13 +432,17 @@ Proof.
       destruct Hcn as (Hcn & Hn00).
       assert (Ec : c = CNone) by (rewrite Er in Hcn; exact Hcn).
       destruct (post_empty _ _ _ _ _ _ _ _ _ _ Eemp Hcn Hp) as (-> & -> & [(-> & Er2)|(-> & Hka & Er2)]).
-      + split; [exact Hs2|]. unfold seg_ok. cbv zeta. split; [discriminate|]. intros _.
+      + split; [exact Hs2|]. split; [|discriminate]. unfold seg_ok. cbv zeta. split; [discriminate|]. intros _.
         rewrite Er2, Er. cbn [repr_set_seq repr_set_control repr_set_payload r_payload r_control
                               r_window_len r_window_scale r_max_seg_size r_seq_number].
         rewrite Hsl, Hn00, Ec.
         split; [intros [X|X]; [lia|discriminate]|]. split; [discriminate|]. split; [discriminate|].
         intros _. repeat split; reflexivity.
-      + split; [exact Hs2|]. unfold seg_ok. cbv zeta. split; [|discriminate]. intros _.
+      + split; [exact Hs2|]. split.
+        2:{ intros _. unfold ka_ok. cbv zeta. right. split; [exact Hph|]. split; [exact Hds|].
+            exists off. split; [exact Hoff|]. split; [|exact (Hn4 Hn00)].
+            intros (X1 & X2). assert (Y : c = CFin) by (apply Hc2; split; [lia|exact X2]). congruence. }
+        unfold seg_ok. cbv zeta. split; [|discriminate]. intros _.
         rewrite Er2, Er. cbn [repr_set_seq repr_set_payload repr_set_control r_payload r_control r_seq_number
                               r_window_len repr].
         rewrite Hts1, <- Hts2, Ec. auto 6.
@@ -409,7 +451,7 @@ Proof.
       assert (Ecs : control_eqb (r_control r1) CSyn = false).
       { rewrite Er. cbn [repr_set_control r_control]. destruct Hc1 as [->|[->| ->]]; reflexivity. }
       rewrite Ecs in Er2. subst r.
-      split; [exact Hs2|]. unfold seg_ok. cbv zeta. split; [discriminate|]. intros _.
+      split; [exact Hs2|]. split; [|discriminate]. unfold seg_ok. cbv zeta. split; [discriminate|]. intros _.
       rewrite Er. cbn [repr_set_seq repr_set_control repr_set_payload r_payload r_control
                        r_window_len r_window_scale r_max_seg_size r_seq_number].
       rewrite Hsl.
@@ -430,12 +472,13 @@ Proof.
   assert (Hsyn : forall syn_sent, g_phase g = PSyn ->
             tcp_state_eqb (s_state s) SynSent = syn_sent ->
             post_build cx s (tcp_syn_repr s repr ts syn_sent) false tg = Ok (s2, Some r, zwp, ka, tg) ->
-            (s2 = s \/ s2 = upd_pending_fast_retransmit s false) /\ seg_ok cx g s r zwp ka).
+            (s2 = s \/ s2 = upd_pending_fast_retransmit s false) /\ seg_ok cx g s r zwp ka /\
+            (ka = true -> ka_ok cx g s)).
   { intros syn_sent Hph Hss Hp.
     destruct (post_nonempty cx s (tcp_syn_repr s repr ts syn_sent) _ _ _ _ _ _ _ Hcx eq_refl Hp)
       as (-> & -> & -> & Er2).
     cbn [tcp_syn_repr r_control control_eqb] in Er2. subst r.
-    split; [left; reflexivity|]. unfold seg_ok. cbv zeta. split; [discriminate|]. intros _.
+    split; [left; reflexivity|]. split; [|discriminate]. unfold seg_ok. cbv zeta. split; [discriminate|]. intros _.
     cbn [with_mss tcp_syn_repr r_payload r_control r_window_len r_window_scale r_max_seg_size
          r_seq_number].
     rewrite l_len_nil.
@@ -451,7 +494,7 @@ Proof.
     destruct (post_nonempty cx s (repr_set_control repr CRst) _ _ _ _ _ _ _ Hcx eq_refl H)
       as (-> & -> & -> & Er2).
     cbn [repr_set_control r_control control_eqb] in Er2. subst r.
-    split; [left; reflexivity|]. unfold seg_ok. cbv zeta. split; [discriminate|]. intros _.
+    split; [left; reflexivity|]. split; [|discriminate]. unfold seg_ok. cbv zeta. split; [discriminate|]. intros _.
     cbn [repr_set_control r_payload r_control r_window_len r_window_scale r_max_seg_size
          r_seq_number repr]. rewrite l_len_nil.
     split; [intros [X|X]; [lia|discriminate]|]. split; [discriminate|].
@@ -489,12 +532,13 @@ Proof.
     assert (Hemp : repr_is_empty repr = true) by reflexivity.
     destruct (post_empty _ _ _ _ _ _ _ _ _ _ Hemp eq_refl H) as (-> & -> & [(-> & Er2)|(-> & Hka & Er2)]);
     (split; [left; reflexivity|]); unfold seg_ok; cbv zeta; subst r.
-    + split; [discriminate|]. intros _.
+    + split; [|discriminate]. split; [discriminate|]. intros _.
       cbn [repr_set_seq r_payload r_control r_window_len r_window_scale r_max_seg_size r_seq_number repr].
       rewrite l_len_nil.
       split; [intros [X|X]; [lia|discriminate]|]. split; [discriminate|]. split; [discriminate|].
       intros _. repeat split; reflexivity.
-    + split; [|discriminate]. intros _.
+    + split; [|intros _; unfold ka_ok; cbv zeta; left; destruct (g_phase g); first [reflexivity|tauto]].
+      split; [|discriminate]. intros _.
       cbn [repr_set_seq repr_set_payload r_payload r_control r_seq_number r_window_len repr].
       auto 6.
   - (* CloseWait *)
@@ -513,12 +557,13 @@ Proof.
     assert (Hemp : repr_is_empty repr = true) by reflexivity.
     destruct (post_empty _ _ _ _ _ _ _ _ _ _ Hemp eq_refl H) as (-> & -> & [(-> & Er2)|(-> & Hka & Er2)]);
     (split; [left; reflexivity|]); unfold seg_ok; cbv zeta; subst r.
-    + split; [discriminate|]. intros _.
+    + split; [|discriminate]. split; [discriminate|]. intros _.
       cbn [repr_set_seq r_payload r_control r_window_len r_window_scale r_max_seg_size r_seq_number repr].
       rewrite l_len_nil.
       split; [intros [X|X]; [lia|discriminate]|]. split; [discriminate|]. split; [discriminate|].
       intros _. repeat split; reflexivity.
-    + split; [|discriminate]. intros _.
+    + split; [|intros _; unfold ka_ok; cbv zeta; left; destruct (g_phase g); first [reflexivity|tauto]].
+      split; [|discriminate]. intros _.
       cbn [repr_set_seq repr_set_payload r_payload r_control r_seq_number r_window_len repr].
       auto 6.
 Qed.
